@@ -3,6 +3,7 @@ import OciModel.Driver.Scope
 import OciModel.Driver.Ref
 import OciModel.Driver.Err
 import OciModel.Driver.Mem
+import OciModel.Driver.Req
 
 structure DState where
   scopes : OciModel.Driver.Scope.Regs := []
@@ -16,6 +17,8 @@ def step (st : DState) (line : String) : DState × String :=
   | "mem" :: rest =>
     let (m, out) := OciModel.Driver.Mem.drive st.mem rest
     ({ st with mem := m }, out)
+  | "srv" :: _ => (st, "skip")
+  | "req" :: rest => (st, OciModel.Driver.Req.drive rest)
   | "err" :: rest => (st, OciModel.Driver.Err.drive rest)
   | "ref" :: rest => (st, OciModel.Driver.Ref.drive rest)
   | "scope" :: rest =>
